@@ -215,20 +215,43 @@ example :
 
 /-! ## Typed bindings: decode ∘ encode = id, latch, publish -/
 
-/-- **Typed codec, encode then decode.**  For each of the 17 elementary types, an in-range value of
-the type is encoded (`coerce_to_io`) into an in-range I/O value of the type's size, and decoding
-(`coerce_from_io`) gives the value back (two's complement for the signed types, raw bits for REAL). -/
+/-- **Typed codec, encode then decode.**  For each of the 25 elementary types (the 17 bit, integer,
+bit-string, character and real types and TIME/DATE/TOD/DT with their L-variants), an in-range value of
+the type that the image can represent (`ioExact`: trivially true except for the 32-bit date/time types,
+where the value must be a whole count that fits 32 bits) is encoded (`coerce_to_io`) into an in-range
+I/O value of the type's size, and decoding (`coerce_from_io`) gives the value back (two's complement for
+the signed types and the date/time counts, raw bits for REAL). -/
 theorem c07_coerce_encode_decode (v : Value) (t : Ty) (sz : Size) (hty : v.hasTy t = true) (hwf : v.WF)
-    (hsz : expectedSize t = some sz) :
+    (hex : v.ioExact) (hsz : expectedSize t = some sz) :
     ∃ w, coerceToIo v t sz = .ok w ∧ w.WF ∧ w.ioSize = some sz ∧ coerceFromIo w t = .ok v :=
-  coerce_encode_decode v t sz hty hwf hsz
+  coerce_encode_decode v t sz hty hwf hex hsz
 
 /-- **Typed codec, decode then encode.**  Every in-range I/O value of the type's size decodes to an
-in-range value of the type whose encoding is the I/O value again (the codec is a bijection). -/
+in-range, representable value of the type whose encoding is the I/O value again (the codec is a
+bijection between the I/O values of the size and the representable values of the type). -/
 theorem c07_coerce_decode_encode (w : Value) (t : Ty) (sz : Size) (hw : w.ioSize = some sz) (hwf : w.WF)
     (hsz : expectedSize t = some sz) :
-    ∃ v, coerceFromIo w t = .ok v ∧ v.hasTy t = true ∧ v.WF ∧ coerceToIo v t sz = .ok w :=
+    ∃ v, coerceFromIo w t = .ok v ∧ v.hasTy t = true ∧ v.WF ∧ v.ioExact ∧ coerceToIo v t sz = .ok w :=
   coerce_decode_encode w t sz hw hwf hsz
+
+/-- Non-vacuity of the codec on the date/time types: `T#263ms` (263 000 000 ns) travels as the DWord
+263, `T#-1ms` as `FFFFFFFF`, an LTIME as its nanoseconds; a TIME above 2^31-1 ms is `Overflow`, a value
+of another kind `TypeMismatch`. -/
+example :
+    coerceToIo (.tick .time 263000000) (.tick .time) .dword = .ok (.dword 263) ∧
+    coerceFromIo (.dword 263) (.tick .time) = .ok (.tick .time 263000000) ∧
+    coerceToIo (.tick .time (-1000000)) (.tick .time) .dword = .ok (.dword 4294967295) ∧
+    coerceFromIo (.dword 4294967295) (.tick .tod) = .ok (.tick .tod (-1)) ∧
+    coerceToIo (.tick .ltime (-5)) (.tick .ltime) .lword = .ok (.lword 18446744073709551611) ∧
+    coerceToIo (.tick .time 2147483648000000) (.tick .time) .dword = .error .overflow ∧
+    coerceToIo (.tick .date 5) (.tick .time) .dword = .error .typeMismatch ∧
+    (Value.tick .time 263000000).ioExact ∧ ¬ (Value.tick .date 4294967296).ioExact := by
+  refine ⟨by rfl, by rfl, by rfl, by rfl, by rfl, by rfl, by rfl,
+    Or.inr ⟨263, by decide, by decide, by decide⟩, ?_⟩
+  rintro (h | ⟨c, h1, h2, h3⟩)
+  · cases h
+  · simp only [TKind.scale] at h1
+    omega
 
 /-- **Bound variable = decode(latched bytes).**  After a successful `read_inputs`, the variable of an
 input/memory binding holds the decoding of what `read` yields at its address, provided no later
@@ -260,20 +283,20 @@ theorem c07_latch_frame (io : Io) (bs : List Binding) (x : Nat) (s : Store)
     (h : ∀ b ∈ bs, b.isIn = true → b.target.var ≠ x) : (latch io bs s).1 x = s x :=
   latch_frame io bs x s h
 
-/-- **Decoding of a well-typed binding.**  For a binding inside the guard `wellTyped`, the latched
-value exists for every image, is an in-range value of the declared type, and re-encodes to exactly
-the I/O value read at the address: the variable is `decode(bytes of the span)`. -/
+/-- **Decoding of a well-typed binding.**  For a binding as the compiler produces them (`wellTyped`),
+the latched value exists for every image, is an in-range representable value of the declared type, and
+re-encodes to exactly the I/O value read at the address: the variable is `decode(bytes of the span)`. -/
 theorem c07_latch_decode (io : Io) (b : Binding) (hwt : b.wellTyped = true) (hio : io.WF) :
     ∃ t w v, b.ty = some t ∧ read io b.addr = .ok w ∧ latchValue io b = .ok v ∧ v.hasTy t = true ∧ v.WF ∧
-      coerceToIo v t b.addr.size = .ok w := by
+      v.ioExact ∧ coerceToIo v t b.addr.size = .ok w := by
   unfold Binding.wellTyped at hwt
   cases ht : b.ty with
   | none => simp [ht] at hwt
   | some t =>
     simp only [ht, Bool.and_eq_true, beq_iff_eq] at hwt
     obtain ⟨w, hr, hsz, hw⟩ := read_valid io b.addr hwt.2 hio
-    obtain ⟨v, h1, h2, h3, h4⟩ := coerce_decode_encode w t b.addr.size hsz hw hwt.1
-    exact ⟨t, w, v, rfl, hr, by simp [latchValue, hr, ht, h1], h2, h3, h4⟩
+    obtain ⟨v, h1, h2, h3, h4, h5⟩ := coerce_decode_encode w t b.addr.size hsz hw hwt.1
+    exact ⟨t, w, v, rfl, hr, by simp [latchValue, hr, ht, h1], h2, h3, h4, h5⟩
 
 /-- **Published bytes = encode(final value).**  After a successful `write_outputs`, reading back the
 address of an output/memory binding yields the value the binding published — the encoding of what
@@ -300,16 +323,26 @@ theorem c07_collect_value (s : Store) (pre post : List Binding) (b : Binding) (i
       rw [this]
       exact c07_read_write io1 io2 b.addr v hv (hwf v hpv) hw
 
-/-- **Encoding of a well-typed binding.**  Inside the guard, the published value of a variable that
-holds an in-range value of its type exists, is an in-range I/O value of the address size, and
-decodes back to the variable's value. -/
+/-- **An enum is published as its numeric value.**  An enumerated variable is bound with its base
+type `t`; when its numeric value `n` is a value of that type, `coerce_to_io` publishes exactly what an
+integer variable of type `t` holding `n` publishes (`Value.plain t (enum n)` is that integer). -/
+theorem c07_enum_publish (n : Int) (t : Ty) (sz : Size) (hty : ((Value.enum n).plain t).hasTy t = true)
+    (hwf : ((Value.enum n).plain t).WF) :
+    coerceToIo (.enum n) t sz = coerceToIo ((Value.enum n).plain t) t sz :=
+  enum_publish n t sz hty hwf
+
+/-- **Encoding of a well-typed binding.**  The published value of a variable that holds an in-range
+representable value of its type — or an enum whose numeric value is one — exists, is an in-range I/O
+value of the address size, and decodes back to the variable's value (for an enum: to the integer of
+the base type with the enum's numeric value). -/
 theorem c07_publish_encode (s : Store) (b : Binding) (hwt : b.wellTyped = true) (hh : b.holdsTyped s) :
     ∃ t v w, b.ty = some t ∧ s b.target.var = some v ∧ publishValue s b = .ok w ∧ w.WF ∧
-      w.ioSize = some b.addr.size ∧ coerceFromIo w t = .ok v := by
-  obtain ⟨v, t, ht, hs, hty, hwf⟩ := hh
+      w.ioSize = some b.addr.size ∧ coerceFromIo w t = .ok (v.plain t) := by
+  obtain ⟨v, t, ht, hs, hty, hwf, hex⟩ := hh
   unfold Binding.wellTyped at hwt
   simp only [ht, Bool.and_eq_true, beq_iff_eq] at hwt
-  obtain ⟨w, h1, h2, h3, h4⟩ := coerce_encode_decode v t b.addr.size hty hwf hwt.1
+  obtain ⟨w, h1, h2, h3, h4⟩ := coerce_encode_decode (v.plain t) t b.addr.size hty hwf hex hwt.1
+  rw [← plain_publish v t b.addr.size hty hwf] at h1
   exact ⟨t, v, w, ht, hs, by simp [publishValue, hs, ht, h1], h2, h3, h4⟩
 
 /-- `write_outputs` never modifies the input image, whether it succeeds or fails. -/
@@ -317,11 +350,13 @@ theorem c07_collect_inputs (s : Store) (bs : List Binding) (io : Io) :
     (collect s bs io).1.inputs = io.inputs :=
   collect_inputs s bs io
 
-/-- **Partial theorem for the recorded findings: well-typed binding sets never fault.**  If every
-binding is inside the guard `wellTyped`, the images are well formed and every reference target
-resolves, `read_inputs` succeeds; if moreover every out-bound variable holds an in-range value of its
-type, `write_outputs` succeeds.  (Outside the guard the code faults: `c07_counterexample_*`.) -/
-theorem c07_bindings_total_partial (bs : List Binding) (hwt : ∀ b ∈ bs, b.wellTyped = true) :
+/-- **Binding sets of the compiler never fault.**  If every binding is as the compiler produces them
+(`wellTyped`: `c07_expand_layout` shows that every accepted `AT` declaration yields such bindings — for
+TIME/DATE/TOD/DT and their L-variants since the repair of C07-time-input), the images are well formed
+and every reference target resolves, `read_inputs` succeeds; if moreover every out-bound variable holds
+an in-range representable value of its type or an enum standing for one (C07-enum-output),
+`write_outputs` succeeds. -/
+theorem c07_bindings_total (bs : List Binding) (hwt : ∀ b ∈ bs, b.wellTyped = true) :
     (∀ (io : Io) (s : Store), io.WF → (∀ b ∈ bs, ∀ x, b.target = .ref x → (s x).isSome = true) →
       (latch io bs s).2 = none) ∧
     (∀ (io : Io) (s : Store), (∀ b ∈ bs, b.isOut = true → b.holdsTyped s) → (collect s bs io).2 = none) := by
@@ -371,36 +406,42 @@ theorem c07_bindings_total_partial (bs : List Binding) (hwt : ∀ b ∈ bs, b.we
         simp only [hw]
         exact ih hrest io1 (fun b' hb' => hh b' (List.mem_cons_of_mem _ hb'))
 
-/-- **Counterexample (finding C07-time-input).**  A binding whose declared type is not one of the 17
-(TIME: `io_size_for_type` says `D`, `coerce_from_io` has no arm) makes `read_inputs` fail with
-`TypeMismatch` on every image: the variable is never `decode(latched bytes)`. -/
-theorem c07_counterexample_time_input (io : Io) (s : Store) :
-    let b : Binding := { target := .ref 0, ty := some .time,
-                         addr := { area := .input, size := .dword, byte := 0, bit := 0, path := [0], wildcard := false } }
-    expandAt 0 { area := .input, size := .dword, byte := 0, bit := 0, path := [0], wildcard := false } (.elem .time) =
-      some [b] ∧
-    b.wellTyped = false ∧ latch io [b] s = (s, some .typeMismatch) := by
+/-- **Witness of the repaired finding C07-time-input.**  `x AT %ID0 : TIME` yields one well-typed
+DWord binding, and latching the bytes `07 01 00 00` stores `T#263ms` (before the repair:
+`TypeMismatch` on every image). -/
+theorem c07_time_input_latches (s : Store) :
+    let base : Addr := { area := .input, size := .dword, byte := 0, bit := 0, path := [0], wildcard := false }
+    let b : Binding := { target := .ref 0, ty := some (.tick .time), addr := base }
+    let io : Io := { inputs := [7, 1, 0, 0] }
+    expandAt 0 base (.elem (.tick .time)) = some [b] ∧ b.wellTyped = true ∧
+    latch io [b] (s.set 0 (.tick .time 0)) = ((s.set 0 (.tick .time 0)).set 0 (.tick .time 263000000), none) := by
   refine ⟨by decide, by decide, ?_⟩
-  simp only [latch, Binding.isIn, latchValue]
-  have : read io { area := .input, size := .dword, byte := 0, bit := 0, path := [0], wildcard := false } =
-      .ok (.dword (fromLe (readSpan io.inputs 0 4))) := by simp [read, Io.area]
-  simp [this, coerceFromIo]
+  simp [latch, Binding.isIn, latchValue, read, Io.area, readSpan, getB, fromLe, coerceFromIo, TKind.long,
+    TKind.scale, asSigned, Store.set]
 
-/-- **Counterexample (finding C07-enum-output).**  An enum variable bound with AT gets the base type
-(`leaf_value_type`) but holds `Value::Enum` (`other` here): `write_outputs` fails with `TypeMismatch`
-whatever the images are, so the enum's value is never published. -/
-theorem c07_counterexample_enum_output (io : Io) :
+/-- **Witness of the repaired finding C07-enum-output.**  An enum variable bound with its base type INT
+at `%QW0` and holding the enum with numeric value 2 publishes the bytes `02 00` (before the repair:
+`TypeMismatch` whatever the images were). -/
+theorem c07_enum_output_publishes :
     let b : Binding := { target := .ref 0, ty := some .int,
                          addr := { area := .output, size := .word, byte := 0, bit := 0, path := [0], wildcard := false } }
-    let s : Store := Store.empty.set 0 (.other 4)
-    b.wellTyped = true ∧ ¬ b.holdsTyped s ∧ collect s [b] io = (io, some .typeMismatch) := by
-  refine ⟨by decide, ?_, ?_⟩
-  · rintro ⟨v, t, ht, hs, hty, _⟩
-    simp [Store.set, Target.var] at hs
-    subst hs
-    cases t <;> simp [Value.hasTy] at hty
-  · simp [collect, Binding.isOut, publishValue, Target.var, Store.set, coerceToIo, expectedSize, signedToIo, toI64,
-      Except.map]
+    let s : Store := Store.empty.set 0 (.enum 2)
+    let io : Io := { outputs := [0, 0, 0, 0] }
+    b.wellTyped = true ∧ b.holdsTyped s ∧ collect s [b] io = ({ io with outputs := [2, 0, 0, 0] }, none) := by
+  refine ⟨by decide, ⟨.enum 2, .int, rfl, by simp [Store.set, Target.var], by decide, by simp [Value.plain, Value.WF],
+    by simp [Value.plain, Value.ioExact]⟩, by rfl⟩
+
+/-- **Counterexample (open finding C07-enum-input).**  `coerce_from_io` never yields an enum: an
+enumerated variable bound to `%I`/`%M` (binding type = the base type) is latched as a bare integer of
+the base type, so the variable no longer holds a value of its declared (enum) type after the latch. -/
+theorem c07_counterexample_enum_input (io : Io) (b : Binding) (t : Ty) (v : Value) (ht : b.ty = some t)
+    (h : latchValue io b = .ok v) (n : Int) : v ≠ .enum n := by
+  unfold latchValue at h
+  cases hr : read io b.addr with
+  | error e => simp [hr] at h
+  | ok w =>
+    simp only [hr, ht] at h
+    exact coerceFromIo_not_enum w t v h n
 
 /-- Non-vacuity of the binding theorems: an `INT` at `%IW0` and an `INT` at `%QW2` are inside the guard;
 latching bytes `FE FF` gives `-2`, publishing `-2` gives bytes `FE FF` at offset 2. -/
@@ -414,29 +455,31 @@ example :
     bi.wellTyped = true ∧ bq.wellTyped = true ∧ bq.holdsTyped s ∧
     (latch io [bi, bq] s).1 0 = some (.int (-2)) ∧
     (collect s [bi, bq] io).1.outputs = [0, 0, 0xFE, 0xFF] := by
-  refine ⟨by decide, by decide, ⟨.int (-2), .int, rfl, by simp [Store.set, Target.var], rfl, by simp [Value.WF]⟩,
-    by rfl, by rfl⟩
+  refine ⟨by decide, by decide, ⟨.int (-2), .int, rfl, by simp [Store.set, Target.var], rfl,
+    by simp [Value.plain, Value.WF], by simp [Value.plain, Value.ioExact]⟩, by rfl, by rfl⟩
 
 
 /-- **From `x AT base : T` to bindings.**  For an elementary type, a one-dimensional array or a
-structure of elementary fields (of the 17 types) declared at a flat base address with bit index 0..7,
-`collect_io_bindings`/`offset_address` yield one binding per leaf, for the variables
-`first, first+1, …` in order, every one inside the guard `wellTyped` (its size is the size of the
-leaf type whatever the letter of the declaration), in the base's area, and the leaves occupy pairwise
-disjoint storage (adjacent spans laid out one after the other): no leaf overlaps a sibling. -/
+structure of elementary fields declared at a flat base address with bit index 0..7, whenever
+`collect_io_bindings`/`offset_address` accept the declaration they yield one binding per leaf, for the
+variables `first, first+1, …` in order, every one `wellTyped` (its type is one the coercions know and
+its size is the size of the leaf type whatever the letter of the declaration), in the base's area, and
+the leaves occupy pairwise disjoint storage (adjacent spans laid out one after the other): no leaf
+overlaps a sibling. -/
 theorem c07_expand_layout (first : Nat) (base : Addr) (sh : Shape) (bs : List Binding)
-    (hbit : base.bit ≤ 7) (h17 : ∀ t ∈ sh.tys, (expectedSize t).isSome = true)
-    (h : expandAt first base sh = some bs) :
+    (hbit : base.bit ≤ 7) (h : expandAt first base sh = some bs) :
     (∀ b ∈ bs, b.wellTyped = true ∧ b.addr.area = base.area ∧ base.byte ≤ b.addr.byte) ∧
     bs.Pairwise (fun b b' => b.addr.disjoint b'.addr = true) ∧
     bs.map (·.target) = (List.range sh.tys.length).map (fun j => Target.ref (first + j)) := by
   unfold expandAt at h
   rw [leaves_eq] at h
-  have := expandLeaves_props first base hbit sh.tys 0 0 bs h17 h
+  have h25 := expandLeaves_some_expected first base sh.tys 0 0 bs h
+  have := expandLeaves_props first base hbit sh.tys 0 0 bs h25 h
   simpa using this
 
 /-- Non-vacuity: `ARRAY[0..2] OF INT AT %QB4` (letter `B`, leaves `W`) gives `%QW4, %QW6, %QW8`;
-`ARRAY OF BOOL AT %QX0.3` gives bit 3 of bytes 0 and 1; a TIME leaf is outside the guard. -/
+`ARRAY OF BOOL AT %QX0.3` gives bit 3 of bytes 0 and 1; a structure of a TIME and an LDT at `%MB2`
+gives `%MD2, %ML6`; a STRING leaf is refused. -/
 example :
     (expandAt 7 { area := .output, size := .byte, byte := 4, bit := 0, path := [4], wildcard := false }
       (.array 3 .int)).map (·.map fun b => (b.target.var, b.addr.size, b.addr.byte, b.addr.bit)) =
@@ -444,8 +487,12 @@ example :
     (expandAt 0 { area := .output, size := .bit, byte := 0, bit := 3, path := [0], wildcard := false }
       (.array 2 .bool)).map (·.map fun b => (b.addr.size, b.addr.byte, b.addr.bit)) =
       some [(.bit, 0, 3), (.bit, 1, 3)] ∧
-    (expectedSize .time).isSome = false := by
-  refine ⟨by decide, by decide, by decide⟩
+    (expandAt 0 { area := .memory, size := .byte, byte := 2, bit := 0, path := [2], wildcard := false }
+      (.struct [.tick .time, .tick .ldt])).map (·.map fun b => (b.addr.size, b.addr.byte)) =
+      some [(.dword, 2), (.lword, 6)] ∧
+    expandAt 0 { area := .memory, size := .byte, byte := 2, bit := 0, path := [2], wildcard := false }
+      (.elem .other) = none := by
+  refine ⟨by decide, by decide, by decide, by decide⟩
 
 /-! ## The scan cycle: latch once, publish once, nothing in between, nothing on a fault -/
 
